@@ -583,7 +583,7 @@ func main() {
 `
 
 var childFiles = map[string]bool{"common.go": true, "drv.go": true, "rng.go": true, "imggen.go": true,
-	"suite_kernels.go": true, "suite_kernels_pipe.go": true}
+	"suite_kernels.go": true, "suite_kernels_pipe.go": true, "suite_kernels_range.go": true}
 
 // childOverlay restricts cmd/vcheck to the kernels suite (and, for purego, also applies the module overlay).
 func childOverlay(tmp, label string, module map[string]string) (string, error) {
@@ -748,7 +748,7 @@ func childDiffs(rep *Report, c childResult, ref childRef, pr *pipeResult, fileId
 				v := kvecFor(rep.Seed, k, i)
 				in := v.input()
 				in["kernel"], in["case"], in["seed"] = k.Name, i, rep.Seed
-				fs = append(fs, Finding{Kind: "property", Property: "C13", Signature: "kernel:" + kname(k, v) + ":" + c.Label + "-vs-go",
+				fs = append(fs, Finding{Kind: "property", Property: "C13", Signature: kdiffSignature(k, v, c.Label, "go"),
 					Detail: fmt.Sprintf("class %s: whole-buffer digest differs (child %s, portable path of %s %s)", v.Class, got[i], ref.label, want[i]), Input: in})
 			}
 		}
@@ -823,8 +823,8 @@ func compareChild(rep *Report, c childResult, ref childRef, pr *pipeResult, file
 	rep.Notes = append(rep.Notes, notes...)
 	rep.Evaluations += evals
 	for _, f := range fs {
-		if strings.HasPrefix(f.Signature, "kernel:") {
-			rep.Count("kernel-diff/" + strings.TrimPrefix(f.Signature, "kernel:"))
+		if strings.HasPrefix(f.Signature, "kernel") {
+			rep.Count("kernel-diff/" + f.Signature + "[" + c.Label + "]")
 		}
 		rep.Add(f)
 	}
